@@ -2,5 +2,7 @@ SPECIFICATION Spec
 CONSTANTS KA = {"none", "f3", "sub"}
           KB = {"none", "f0", "f12", "f3"}
           KC = {"raw1", "frep", "f12"}
+          RK = {"dir", "hamt"}
+          SK = {"dir", "hamt"}
 INVARIANTS TypeOK DagWellFormed AllBlocksVerify OnlyFromDag DupsOnlyIfRequested RootIsTerminal Sufficient RawExact ModelMinimal
 CHECK_DEADLOCK FALSE
